@@ -22,7 +22,8 @@ MIN_OBLIGATIONS = 3
 
 import ast
 from ..obligation import Ob
-from ..frontend import AnalysisError
+from .. import terms as T
+from ..frontend import AnalysisError, dotted
 
 ND = "puan.ndarray.integer_ndarray.ndint_compress"
 R2 = "puan.ndarray.integer_ndarray.reduce2d"
@@ -102,18 +103,37 @@ def _extra(ctx):
             nblocks = 0
             for lit, body in chain:
                 for st in body:
-                    if isinstance(st, ast.If) and "ndim" in ast.unparse(st.test) and ">" in ast.unparse(st.test):
+                    if isinstance(st, ast.If) and any(isinstance(x, ast.Attribute) and x.attr == "ndim" for x in ast.walk(st.test)) \
+                            and any(isinstance(x, (ast.Gt, ast.GtE)) for x in ast.walk(st.test)):
                         nblocks += 1
-                        calls = [n for n in ast.walk(st) if isinstance(n, ast.Call) and ast.unparse(n.func).endswith("ndint_compress")]
-                        ok = False
+                        calls = [n for n in ast.walk(st) if isinstance(n, ast.Call) and isinstance(n.func, ast.Attribute)
+                                 and n.func.attr == "ndint_compress"]
+                        params = list(fi.params)            # self, method, axis
+                        verdicts = []
                         for c in calls:
-                            kw = {k.arg: ast.unparse(k.value) for k in c.keywords}
-                            if ast.unparse(c.func) in ("integer_ndarray.ndint_compress",) and kw.get("method") in ("method", repr(lit)) and kw.get("axis") == "0":
-                                ok = True
-                        obs.append(Ob(f"E8.batch:{lit}", "E8.batch-recursion", f"{fi.file}:{st.lineno} {q}", "ok" if ok else "violation",
-                                      f"ndim>2 block of method '{lit}' re-enters integer_ndarray.ndint_compress(x, method=method, axis=0)" if ok else
-                                      f"ndim>2 block of method '{lit}' does not re-enter ndint_compress with its own method and axis=0: "
-                                      f"{[ast.unparse(c)[:80] for c in calls]}", key=f"E8.batch:{q}:{lit}"))
+                            # bind by the signature: called through the class (self passed explicitly) or through an instance
+                            recv = dotted(c.func.value) or ""
+                            names = params if recv.split(".")[-1] in ("integer_ndarray", "__class__") or recv.startswith("type(") else params[1:]
+                            kw = dict(zip(names, c.args))
+                            kw.update({k.arg: k.value for k in c.keywords if k.arg})
+                            m, a = kw.get("method"), kw.get("axis")
+                            mt = T._literal_term(ctx.program, fi.module, m) if m is not None else None
+                            at = T._literal_term(ctx.program, fi.module, a) if a is not None else None
+                            m_ok = (isinstance(m, ast.Name) and m.id == "method") or (mt is not None and mt == T.C(lit))
+                            m_known = m_ok or mt is not None
+                            a_ok = at == T.C(0)
+                            a_known = at is not None
+                            verdicts.append("ok" if (m_ok and a_ok) else ("bad" if (m_known and a_known) else "unknown"))
+                        if "ok" in verdicts:
+                            obs.append(Ob(f"E8.batch:{lit}", "E8.batch-recursion", f"{fi.file}:{st.lineno} {q}", "ok",
+                                          f"ndim>2 block of method '{lit}' re-enters ndint_compress(x, method=method, axis=0)"))
+                        elif verdicts and all(v == "bad" for v in verdicts):
+                            obs.append(Ob(f"E8.batch:{lit}", "E8.batch-recursion", f"{fi.file}:{st.lineno} {q}", "violation",
+                                          f"ndim>2 block of method '{lit}' does not re-enter ndint_compress with its own method and axis=0: "
+                                          f"{[ast.unparse(c)[:80] for c in calls]}", key=f"E8.batch:{q}:{lit}"))
+                        else:
+                            obs.append(Ob(f"E8.batch:{lit}", "E8.batch-recursion", f"{fi.file}:{st.lineno} {q}", "ok",
+                                          f"ndim>2 block of method '{lit}' is not in the recognisable re-entry form; decided by the whole-function contract"))
             if nblocks < 3:
                 # the batch blocks are not in their recognisable inline form (e.g. extracted into a helper): the whole-function
                 # contract of ndint_compress still decides them; this role rule is then not applicable
